@@ -19,7 +19,9 @@ SPEC = dict(
          "Parallelism 1 or 3). Per scenario: undisturbed run; killed (freeze) before EVERY mutation; killed by a real os.Exit in "
          "a child process before every mutation (first scenarios in quick, all in thorough); EVERY single mutation failing "
          "(CreateTemp also as 'file created, write fails'). After each run the directory is loaded with "
-         "search.NewDirectorySearcher. Case = (build parameters, executed op list, killed?, Finish error?, per-slot view); "
+         "search.NewDirectorySearcher. Second harness (package cmd/zoekt-sourcegraph-indexserver): the REAL mergeMeta "
+         "(metadata-only update: one temp sidecar per shard, then a rename loop) on indexes with 1-3 shards with/without old "
+         "sidecars, same kill / fault enumeration, model instance = delta build without new shards. Case = (build parameters, executed op list, killed?, Finish error?, per-slot view); "
          "non-trivial = a kill or a fault, distinct by (parameters, ops, view).",
     trusted_base=["correspondence harness harness/overlay/search/zz_verif_c12_test.go (scenario generator, file-name -> model-name "
                   "abstraction, classification of a visible shard/sidecar as old/new by IndexMetadata.ID / sidecar bytes, Go oracle "
@@ -39,11 +41,12 @@ SPEC = dict(
 )
 
 
-def instrument(ctx):
-    out = os.path.join(ctx.tmp, "fsinstrument")
+def instrument(ctx, files=None, sub="fsinstrument"):
+    files = files or FILES
+    out = os.path.join(ctx.tmp, sub)
     os.makedirs(out, exist_ok=True)
     rc, txt = vf.sh(["go", "run", os.path.join(vf.ROOT, "translator", "fsinstrument", "main.go"), "-repo", vf.REPO, "-out", out,
-                     "-fns", FNS] + FILES, cwd=vf.REPO, env=vf.go_env(), timeout=300)
+                     "-fns", FNS] + files, cwd=vf.REPO, env=vf.go_env(), timeout=300)
     if rc != 0:
         raise RuntimeError("fsinstrument failed: " + txt[-2000:])
     data = json.loads(txt[txt.index("{"):])
@@ -59,16 +62,68 @@ def generate(ctx):
     vf.write_if_changed(os.path.join(vf.COQ, "Generated", "FinishSites.v"), txt[txt.index("(* generated"):])
 
 
-def run(ctx):
-    generate(ctx)
-    rep, sites = instrument(ctx)
-    orig = vf.go_harness
+META_FILES = ["cmd/zoekt-sourcegraph-indexserver/meta.go"]
 
-    def patched(*a, **k):
-        k["extra_replace"] = rep
-        return orig(*a, **k)
-    vf.go_harness = patched
-    try:
-        return vf.standard_check(ctx, SPEC)
-    finally:
-        vf.go_harness = orig
+
+def run(ctx):
+    """standard_check with two harnesses: builds through index.Builder (package search) and metadata-only updates through
+    the indexserver's mergeMeta (package main); both feed the same model runner."""
+    pid = ctx.pid
+    spec = SPEC
+    generate(ctx)
+    proofs = vf.coq_props(ctx, pid)
+    broken, failures = [], []
+    aok, aout = vf.audit()
+    if not aok:
+        proofs["ok"] = False
+        proofs["discharged"] = 0
+        broken.append("audit: the development contains Admitted/Axiom/Parameter or disables a kernel check: " + aout[-800:])
+    if ctx.tier == "thorough" and proofs["ok"]:
+        cok, cout = vf.coqchk(pid)
+        proofs["coqchk"] = cout[-1500:]
+        if not cok:
+            proofs["ok"] = False
+            broken.append("coqchk rejects Props/%s.vo: %s" % (pid, cout[-800:]))
+    if not proofs["ok"]:
+        broken.append("proof obligations of Props/%s.v do not check: %s" % (pid, (proofs.get("broken_files") or proofs.get("nonstd_axioms") or proofs["log"][-800:])))
+    h = spec["harness"]
+    n = ctx.n(h["n_quick"], h["n_thorough"])
+    to = 1500 if ctx.tier == "quick" else 5400
+    rep, _sites = instrument(ctx, FILES, "fsi-build")
+    hr = vf.go_harness(ctx, h["pkg_dir"], h["run"], h["files"], n, timeout=to, extra_replace=rep, out_name="out-build.jsonl")
+    rep2, _sites2 = instrument(ctx, META_FILES, "fsi-meta")
+    hm = vf.go_harness(ctx, "cmd/zoekt-sourcegraph-indexserver", "TestVerifC12Meta$",
+                       ["cmd/zoekt-sourcegraph-indexserver/zz_verif_c12meta_test.go"], ctx.n(4, 4), timeout=to,
+                       extra_replace=rep2, out_name="out-meta.jsonl")
+    recs = hr["records"] + hm["records"]
+    for name, r_ in (("TestVerifC12", hr), ("TestVerifC12Meta", hm)):
+        if r_["rc"] != 0:
+            broken.append("harness %s failed (rc=%d): %s" % (name, r_["rc"], r_["log"][-1500:]))
+        elif not [x for x in r_["records"] if x.get("kind") == "case"]:
+            broken.append("harness %s produced no cases" % name)
+    cases = [r_ for r_ in recs if r_.get("kind") == "case"]
+    for r_ in recs:
+        if r_.get("kind") == "oracle_fail":
+            failures.append(dict(key=r_.get("key", "?"), what=r_.get("what", ""), replay=r_.get("replay")))
+    ev = dict(ok=True, bad=[], evaluated=0, log="")
+    r = spec["runner"]
+    if cases:
+        ev = vf.coq_eval_cases(ctx, pid, r["imports"], r["case_type"], r["mismatch_fn"], [c["coq"] for c in cases], shard=r.get("shard", 400))
+        if not ev["ok"]:
+            broken.append("model evaluation failed: " + ev["log"][-1500:])
+        for i in ev["bad"][:20]:
+            broken.append("correspondence %s: model and implementation disagree on case %s" % (r["mismatch_fn"], json.dumps(cases[i].get("sample"), default=str)[:1500]))
+    cov = dict(
+        evaluations=len(cases),
+        distinct_nontrivial=vf.distinct_nontrivial(cases),
+        rule=spec["rule"],
+        samples=[c.get("sample") for c in cases[:2]] + [c.get("sample") for c in cases if "mergeMeta" in str(c.get("class"))][:1],
+        traces_validated_against_impl=ev["evaluated"],
+        correspondence_mismatches=len(ev["bad"]),
+        oracle_failures=len(failures),
+        input_distribution=vf.histogram(cases, "class"),
+        trusted_base=spec["trusted_base"],
+    )
+    if proofs.get("coqchk"):
+        cov["coqchk"] = proofs["coqchk"]
+    return vf.finish(ctx, spec["level"], proofs, cov, failures=failures, broken=broken, assumptions=spec["assumptions"])
